@@ -16,6 +16,7 @@ import z3  # noqa: E402
 from mirproto import auto as A  # noqa: E402
 from mirproto import encode as E  # noqa: E402
 from mirproto import events_once_model as EO  # noqa: E402
+from mirproto import events_model as EV  # noqa: E402
 
 REPO = os.environ.get("FOLO_REPO", "/repo")
 
@@ -94,6 +95,149 @@ def run_scenario(args):
     return out
 
 
+def c08_violations(F, kinds, flavor, consts, T, nA):
+    """dict label -> z3 Bool: the quiescent state / history admits NO linearization, or a named consequence fails."""
+    n = len(kinds)
+    sig = consts["%s::%s" % (flavor, "SIGNALED" if flavor == "auto" else "IS_SET")]
+    hasw = consts["%s::HAS_WAITERS" % flavor]
+    lcn = consts["awaiter::NOTIFIED"]
+    stored = (F.curL["state"] & E.BV8(sig)) != 0
+    anyreg = z3.Or(*[F.reg[a] for a in range(nA)]) if nA else z3.BoolVal(False)
+    inL, resp = [], []
+    for o, (kind, a) in enumerate(kinds):
+        if kind == "wait":
+            notified_pending = z3.And(F.status[o] == E.BV8(1), F.curL["lc%d" % a] == E.BV8(lcn))
+            inL.append(z3.Or(F.status[o] == E.BV8(2), notified_pending))
+        else:
+            inL.append(F.status[o] == E.BV8(2))
+        resp.append(F.resp[o])
+    perms = EV.all_permutations(n)
+    invalid_all = []
+    for pi in perms:
+        conds = []
+        for i in range(n):
+            for j in range(i + 1, n):
+                a_, b_ = pi[i], pi[j]
+                conds.append(z3.And(inL[a_], inL[b_], z3.ULT(resp[b_], F.inv[a_])))      # b_ responded before a_ was invoked, yet ordered after it
+        flag = z3.BoolVal(False)
+        for o in pi:
+            kind = kinds[o][0]
+            if kind == "set":
+                flag = z3.If(inL[o], z3.BoolVal(True), flag)
+            elif kind == "reset":
+                flag = z3.If(inL[o], z3.BoolVal(False), flag)
+            elif kind == "try":
+                got = F.res[o] == E.BV8(1)
+                conds.append(z3.And(inL[o], got != flag))
+                if flavor == "auto":
+                    flag = z3.If(z3.And(inL[o], got), z3.BoolVal(False), flag)
+            else:
+                conds.append(z3.And(inL[o], z3.Not(flag)))
+                if flavor == "auto":
+                    flag = z3.If(inL[o], z3.BoolVal(False), flag)
+        conds.append(flag != stored)
+        invalid_all.append(z3.Or(*conds))
+    v = {}
+    v["history has no linearization (signal lost, duplicated or delivered to two; try_wait/wait results inconsistent with any real-time respecting order)"] = z3.And(*invalid_all)
+    v["panic / unreachable arm, mutex or waker bookkeeping misuse"] = F.bad != E.N(0)
+    v["a waiter is still registered although the signal is stored / the event is set (stuck waiter)"] = z3.And(anyreg, stored)
+    v["HAS_WAITERS is clear while the waiter list is not empty (the next set takes the fast path and never wakes it)"] = z3.And(anyreg, (F.curL["state"] & E.BV8(hasw)) == 0)
+    woke = []
+    for o, (kind, a) in enumerate(kinds):
+        if kind == "wait":
+            woke.append(z3.And(F.status[o] == E.BV8(1), F.curL["lc%d" % a] == E.BV8(lcn), (F.woken & (E.BV8(1) << F.lastw[a])) == 0))
+    if woke:
+        v["a notified waiter's latest waker was not invoked"] = z3.Or(*woke)
+    regcount = sum([z3.If(F.reg[a], E.N(1), E.N(0)) for a in range(nA)], E.N(0))
+    v["waker clones not balanced by drops (leak or double drop)"] = z3.Or(F.cnt["clones"] != F.cnt["wdrops"] + regcount, *[F.hand[t] != 0 for t in range(T)])
+    if flavor == "manual":
+        lost = []
+        for o, (kind, a_) in enumerate(kinds):
+            if kind == "set":
+                for a in range(nA):
+                    lost.append(z3.And(F.status[o] == E.BV8(2), F.reg[a], z3.ULT(F.regstep[a], F.inv[o])))
+        if lost:
+            v["a waiter registered before a completed set() is still waiting (generation drain missed it)"] = z3.Or(*lost)
+    return v
+
+
+def run_events(args):
+    t0 = time.time()
+    flavor = args.model.split("_")[1]
+    programs = json.loads(args.programs)
+    programs = [[tuple(x) if isinstance(x, list) else x for x in p] for p in programs]
+    out = dict(scenario="%s: %s" % (flavor, EV.prog_name(programs)), prop=args.prop, verdict=None, queries=[])
+    try:
+        funcs, afuncs, consts, cfg, find = EV.load(args.mir, args.mir2, REPO, flavor)
+        threads, k, opids, kinds, nA = EV.build_scenario(cfg, find, programs)
+    except A.Unsupported as e:
+        out.update(verdict="unsupported", detail=str(e))
+        return out
+    out["k_longest_path"] = k
+    k = min(k, args.kcap)
+    if args.k:
+        k = args.k
+    for th in threads:
+        if th["entry"] == "END":
+            th["entry"] = E.END
+    locs = ["state"] + ["lc%d" % a for a in range(nA)]
+    enc = E.Encoder(threads, k, cells=(), locs=locs, awaiters=nA, nops=len(kinds))
+    enc.build()
+    out.update(k=k, nodes=[len(th["nodes"]) for th in threads], assertions=enc.n_assert, logical_ops=[kk[0] for kk in kinds],
+               functions=sorted({"%s:%s" % (n["op"].get("line", ("?", 0))[0], n["op"]["kind"]) for th in threads for n in th["nodes"].values()}))
+    F = enc.final()
+    done = enc.done()
+    tq = time.time()
+    r, m = enc.check(done, timeout_s=args.timeout)
+    out["queries"].append(dict(q="witness: a complete run exists", result=str(r), s=round(time.time() - tq, 2)))
+    if r != z3.sat:
+        out.update(verdict="vacuous" if r == z3.unsat else "timeout", detail="no complete run within k=%d" % k)
+        return out
+    viol = c08_violations(F, kinds, flavor, consts, len(threads), nA)
+    # History pattern of the recorded known finding (manual-reset only, see known_findings.json):
+    # a set() publishes IS_SET before a reset() that completes, a waiter registers after that reset
+    # while the set() is still draining, and the drain releases it.
+    known = z3.BoolVal(False)
+    if flavor == "manual":
+        pats = []
+        for s_, (ks, _) in enumerate(kinds):
+            for r_, (kr, _) in enumerate(kinds):
+                for w_, (kw, a_) in enumerate(kinds):
+                    if ks == "set" and kr == "reset" and kw == "wait":
+                        pats.append(z3.And(F.status[r_] == E.BV8(2), z3.ULT(F.inv[s_], F.inv[r_]), z3.ULT(F.resp[r_], F.regstep[a_]),
+                                           z3.ULT(F.regstep[a_], F.resp[s_]), z3.Not(F.reg[a_])))
+        if pats:
+            known = z3.Or(*pats)
+    tq = time.time()
+    r, m = enc.check(done, z3.Or(*viol.values()), z3.Not(known), timeout_s=args.timeout)
+    out["queries"].append(dict(q="no linearization / named consequence violated at quiescence (%d permutations)" % len(EV.all_permutations(len(kinds))), result=str(r), s=round(time.time() - tq, 2)))
+    known_hit = False
+    if r == z3.unsat and flavor == "manual":
+        tq = time.time()
+        r2, m2 = enc.check(done, z3.Or(*viol.values()), known, timeout_s=args.timeout)
+        out["queries"].append(dict(q="same, restricted to the history pattern of the recorded known finding", result=str(r2), s=round(time.time() - tq, 2)))
+        if r2 == z3.sat:
+            r, m, known_hit = r2, m2, True
+        elif r2 == z3.unknown:
+            r = r2
+    if r == z3.unknown:
+        out.update(verdict="timeout", detail="solver gave up (%ss)" % args.timeout)
+    elif r == z3.unsat:
+        out.update(verdict="holds")
+    else:
+        labels = [lab for lab, e in viol.items() if z3.is_true(m.eval(e, model_completion=True))]
+        if known_hit:
+            labels = [lab + " {history pattern: set-straddles-reset}" for lab in labels]
+        ev = lambda x: m.eval(x, model_completion=True)
+        fin = dict(state=ev(F.curL["state"]).as_long(), bad=ev(F.bad).as_long(), woken=ev(F.woken).as_long(),
+                   ops=[dict(kind=kinds[o][0], awaiter=kinds[o][1], status=ev(F.status[o]).as_long(), inv=ev(F.inv[o]).as_long(), resp=ev(F.resp[o]).as_long(), res=ev(F.res[o]).as_long()) for o in range(len(kinds))],
+                   awaiters=[dict(lifecycle=ev(F.curL["lc%d" % a]).as_long(), registered=str(ev(F.reg[a])), lastw=ev(F.lastw[a]).as_long()) for a in range(nA)],
+                   counts={k_: ev(v_).as_long() for k_, v_ in F.cnt.items()})
+        out.update(verdict="violation", labels=labels, trace=enc.trace(m), final=fin)
+    out["wall_s"] = round(time.time() - t0, 2)
+    return out
+
+
 def main():
     ap = argparse.ArgumentParser()
     ap.add_argument("cmd", choices=["scenario", "fingerprint", "automata"])
@@ -105,7 +249,26 @@ def main():
     ap.add_argument("--timeout", type=float, default=600)
     ap.add_argument("--stale", action="store_true", help="message-history model with stale reads (slow; cross-check only). Default: one atomic location => coherence makes value reads SC; happens-before is tracked with vector clocks either way")
     ap.add_argument("--kcap", type=int, default=22)
+    ap.add_argument("--model", default="events_once")
+    ap.add_argument("--mir2", default=None, help="MIR dump of awaiter_set (events models)")
+    ap.add_argument("--programs", default="[]", help="events models: JSON list of per-thread item lists")
     args = ap.parse_args()
+    if args.cmd == "fingerprint" and args.model == "awaiter_set":
+        from mirproto import mir as MM
+        import re as _re
+        out = {}
+        for k_, f_ in MM.parse(args.mir).items():
+            if _re.search(r"^(set|awaiter)::<impl at [^>]*(set|awaiter)\.rs:\d+:\d+: \d+:\d+>::(register|unregister|notify_one|notify_one_prior_generation|advance_generation|is_empty|remove|unlink|pick_one|set_lifecycle|lifecycle_phase|new)$", k_):
+                out[k_.split("::")[0] + "::" + k_.split(">::")[-1]] = EO.fingerprint(f_)[0]
+        print(json.dumps(out))
+        return
+    if args.cmd == "fingerprint" and args.model in ("events_auto", "events_manual"):
+        from mirproto import mir as MM
+        print(json.dumps(EV.wrapper_fingerprints(MM.parse(args.mir), args.model.split("_")[1])))
+        return
+    if args.cmd == "scenario" and args.model in ("events_auto", "events_manual"):
+        print(json.dumps(run_events(args)))
+        return
     if args.cmd == "fingerprint":
         funcs, consts, cfg, find = EO.load(args.mir, REPO)
         print(json.dumps(EO.wrapper_fingerprints(funcs)))
